@@ -241,6 +241,28 @@ func c07r2(c *core.Ctx) {
 				good = false
 			}
 		})
+		// the Len() of the asserted value is asked only where the assertion succeeded
+		core.Instrs(f, func(i ssa.Instruction) {
+			cc := core.CallOf(i)
+			if cc == nil || !cc.IsInvoke() || cc.Method.Name() != "Len" {
+				return
+			}
+			e, ok := cc.Value.(*ssa.Extract)
+			if !ok || e.Index != 0 {
+				return
+			}
+			ta, ok := e.Tuple.(*ssa.TypeAssert)
+			if !ok || !ta.CommaOk {
+				return
+			}
+			okFact := core.TrueFact(func(v ssa.Value) bool {
+				e2, ok := v.(*ssa.Extract)
+				return ok && e2.Tuple == ssa.Value(ta) && e2.Index == 1
+			})
+			if !core.Dominated(i, okFact) {
+				good = false
+			}
+		})
 		if good && n > 0 {
 			lenBased = true
 		}
